@@ -30,15 +30,21 @@ def main():
     repo = os.path.join(work, "repo")
     try:
         sh("git -C /repo worktree add -q --detach %s HEAD" % repo)
+        internal = demo_dir.startswith("internal/")
+        if internal:
+            return eval_internal(work, repo, patch, demo, demo_dir, meta, sid, props)
         mod = module_of(demo_dir)
         skip = "-skip TestThrottling" if mod == "pipe" else ""     # wall-clock test of the repository, flaky under load
         testcmd = "go test -mod=mod -count=1 %s ./..." % skip
         res = {}
         # clean tree
         shutil.copy(demo, os.path.join(repo, demo_dir, "zz_seeded_demo_test.go"))
-        rc, out = sh("go test -mod=mod -count=1 -run 'Demo|Seeded|C[0-9][0-9]' . 2>&1 | tail -5", cwd=os.path.join(repo, demo_dir))
-        rc_all, out_all = sh("go test -mod=mod -count=1 . 2>&1 | tail -15", cwd=os.path.join(repo, demo_dir))
+        import re
+        names = re.findall(r"^func (Test\w+)\(", open(demo).read(), re.M)
+        runpat = "'^(" + "|".join(names) + ")$'"
+        rc_all, out_all = sh("go test -mod=mod -count=1 -run %s . 2>&1 | tail -15" % runpat, cwd=os.path.join(repo, demo_dir))
         res["clean_demo_pass"] = "ok " in out_all and "FAIL" not in out_all
+        res["demo_tests"] = names
         os.remove(os.path.join(repo, demo_dir, "zz_seeded_demo_test.go"))
         # patched tree
         rc, out = sh("git apply %s" % patch, cwd=repo)
@@ -49,7 +55,7 @@ def main():
         res["existing_tests_pass"] = "FAIL" not in out and "panic" not in out
         res["existing_tests_tail"] = out[-600:]
         shutil.copy(demo, os.path.join(repo, demo_dir, "zz_seeded_demo_test.go"))
-        rc, out = sh("go test -mod=mod -count=1 %s . 2>&1 | tail -25" % ("-race" if "race" in json.dumps(meta).lower() and "-race" in json.dumps(meta) else ""), cwd=os.path.join(repo, demo_dir), timeout=1800)
+        rc, out = sh("go test -mod=mod -count=1 -run %s . 2>&1 | tail -25" % runpat, cwd=os.path.join(repo, demo_dir), timeout=1800)
         res["patched_demo_fails"] = "FAIL" in out or "panic" in out
         res["patched_demo_tail"] = out[-800:]
         os.remove(os.path.join(repo, demo_dir, "zz_seeded_demo_test.go"))
@@ -76,6 +82,60 @@ def main():
         sh("git -C /repo worktree remove --force %s" % repo)
         shutil.rmtree(work, ignore_errors=True)
         shutil.rmtree(os.path.join(VERIF, ".build", "h_r" + __import__("hashlib").sha1(repo.encode()).hexdigest()[:8]), ignore_errors=True)
+
+
+def eval_internal(work, repo, patch, demo, demo_dir, meta, sid, props):
+    """/repo/internal is in no module: tests run in a scratch module `github.com/fogfish/golem` holding a copy of internal/*."""
+    import re
+    names = re.findall(r"^func (Test\w+)\(", open(demo).read(), re.M)
+    runpat = "'^(" + "|".join(names) + ")$'"
+    sub = demo_dir[len("internal/"):]
+    res = {"demo_tests": names}
+
+    def stage(tag):
+        m = os.path.join(work, "mod_" + tag)
+        os.makedirs(m)
+        open(os.path.join(m, "go.mod"), "w").write("module github.com/fogfish/golem\n\ngo 1.22\n\nrequire github.com/fogfish/golem/pure v0.10.1\n\nreplace github.com/fogfish/golem/pure => %s/pure\n" % repo)
+        shutil.copy(os.path.join(repo, "pure", "go.sum"), os.path.join(m, "go.sum"))
+        for d in os.listdir(os.path.join(repo, "internal")):
+            shutil.copytree(os.path.join(repo, "internal", d), os.path.join(m, d))
+        return m
+    env = dict(os.environ, GOFLAGS="-mod=mod", GOPROXY="off", GOSUMDB="off")
+    m = stage("clean")
+    shutil.copy(demo, os.path.join(m, sub, "zz_seeded_demo_test.go"))
+    rc, out = sh("go test -count=1 -run %s . 2>&1 | tail -15" % runpat, cwd=os.path.join(m, sub), env=env)
+    res["clean_demo_pass"] = "ok " in out and "FAIL" not in out
+    res["clean_tail"] = out[-400:]
+    rc, out = sh("git apply %s" % patch, cwd=repo)
+    res["applies"] = rc == 0
+    m = stage("patched")
+    rc, out = sh("go build ./%s/... 2>&1 | tail -5" % sub.split("/")[0], cwd=m, env=env)
+    res["builds"] = rc == 0 and "rror" not in out
+    rc, out = sh("go test -count=1 ./%s/... 2>&1 | tail -15" % sub.split("/")[0], cwd=m, env=env)
+    res["existing_tests_pass"] = "FAIL" not in out
+    shutil.copy(demo, os.path.join(m, sub, "zz_seeded_demo_test.go"))
+    rc, out = sh("go test -count=1 -run %s . 2>&1 | tail -25" % runpat, cwd=os.path.join(m, sub), env=env)
+    res["patched_demo_fails"] = "FAIL" in out or "panic" in out
+    res["patched_demo_tail"] = out[-800:]
+    res["confirmed"] = bool(res["clean_demo_pass"] and res["applies"] and res["builds"] and res["existing_tests_pass"] and res["patched_demo_fails"])
+    print("confirm:", {k: v for k, v in res.items() if not k.endswith("_tail")})
+    checks = {}
+    for pid in props:
+        env2 = dict(os.environ, VERIF_REPO=repo)
+        t0 = time.time()
+        rc, out = sh("./check %s --tier quick" % pid, cwd=VERIF, env=env2, timeout=3600)
+        lines = out.splitlines()
+        first = next((lines[i + 1].strip() for i, l in enumerate(lines) if l.startswith("VIOLATION") and i + 1 < len(lines)), "")
+        checks[pid] = {"exit": rc, "caught": rc == 1, "wall_s": round(time.time() - t0, 1), "result": next((l for l in lines if l.startswith("RESULT")), ""),
+                       "first_violation": first[:400], "drift_lines": sum(1 for l in lines if l.startswith("SPEC-DRIFT"))}
+        print("check", pid, "exit", rc, checks[pid]["result"], "|", first[:200])
+    dst = os.path.join(VERIF, "seeded", sid)
+    os.makedirs(dst, exist_ok=True)
+    shutil.copy(patch, os.path.join(dst, "patch.diff"))
+    shutil.copy(demo, os.path.join(dst, "demo_test.go"))
+    meta.update({"id": sid, "demo_dir": demo_dir, "confirmation": res, "checks": checks,
+                 "ran": "lib/seeded_tool.py eval (scratch worktree of /repo + scratch module for internal/; clean: demo passes; patched: build, existing tests, demo fails; ./check <id> --tier quick with VERIF_REPO=<patched copy>)"})
+    json.dump(meta, open(os.path.join(dst, "meta.json"), "w"), indent=1)
 
 
 if __name__ == "__main__":
